@@ -18,6 +18,7 @@ import unified_planning as up
 import unified_planning.engines as engines
 from unified_planning.engines.mixins.compiler import CompilationKind, CompilerMixin
 from unified_planning.engines.results import CompilerResult
+from unified_planning.engines.compilers.utils import rewritten_problem_kind
 from unified_planning.model import (
     Problem,
     ProblemKind,
@@ -262,7 +263,7 @@ class TimedToSequential(engines.engine.Engine, CompilerMixin):
     def resulting_problem_kind(
         problem_kind: ProblemKind, compilation_kind: Optional[CompilationKind] = None
     ) -> ProblemKind:
-        new_kind = problem_kind.clone()
+        new_kind = rewritten_problem_kind(problem_kind)
         for timefeat in FEATURES["TIME"]:
             new_kind.unset_time(timefeat)
         for durfeat in FEATURES["EXPRESSION_DURATION"]:
@@ -280,6 +281,23 @@ class TimedToSequential(engines.engine.Engine, CompilerMixin):
             new_kind.set_effects_kind("INTERPRETED_FUNCTIONS_IN_BOOLEAN_ASSIGNMENTS")
             new_kind.set_effects_kind("INTERPRETED_FUNCTIONS_IN_NUMERIC_ASSIGNMENTS")
             new_kind.set_effects_kind("INTERPRETED_FUNCTIONS_IN_OBJECT_ASSIGNMENTS")
+        # for the same reason the operators of an expression assigned to a Boolean fluent at start
+        # can become operators of the conditions that read the fluent at end
+        if (
+            problem_kind.has_fluents_in_boolean_assignments()
+            or problem_kind.has_static_fluents_in_boolean_assignments()
+        ):
+            new_kind.set_conditions_kind("NEGATIVE_CONDITIONS")
+            new_kind.set_conditions_kind("DISJUNCTIVE_CONDITIONS")
+            new_kind.set_conditions_kind("EQUALITIES")
+            new_kind.set_conditions_kind("EXISTENTIAL_CONDITIONS")
+            new_kind.set_conditions_kind("UNIVERSAL_CONDITIONS")
+        # an increase or decrease at the end of an action becomes the assignment `f := f + v`
+        if problem_kind.has_increase_effects() or problem_kind.has_decrease_effects():
+            new_kind.set_effects_kind("FLUENTS_IN_NUMERIC_ASSIGNMENTS")
+            new_kind.set_effects_kind("STATIC_FLUENTS_IN_NUMERIC_ASSIGNMENTS")
+            new_kind.set_problem_type("GENERAL_NUMERIC_PLANNING")
+            new_kind.set_problem_type("SIMPLE_NUMERIC_PLANNING")
         return new_kind
 
     def get_effects_data_structures(
